@@ -1,5 +1,7 @@
 package gh
 
+import "fmt"
+
 // Family - a set of definitions sharing a token alphabet; every argv of length <= L over the alphabet is
 // explored for every definition, by TLC on the specification and by the enumerator on the real code.
 type Family struct {
@@ -394,6 +396,51 @@ func Families(tier string) []Family {
 				c = WithHelp(c, "help")
 				f.Defs = append(f.Defs, Def{Cfg: c, Tokens: toks, L: lim(tier, 3, 4), Disp: true})
 			}
+		}
+		fams = append(fams, f)
+	}
+
+	// helpdoc: 12 kinds x alias counts x required x env x descriptions x levels (C18)
+	{
+		f := Family{Name: "helpdoc"}
+		toks := Ts("--help", "help", "c1", "sub")
+		descs := []string{"", "one line", "first line\nsecond line"}
+		for variant := 0; variant < 6; variant++ {
+			c := Cfg{Mode: variant % 3}
+			c.Nodes = []NodeCfg{rootNode(0, false), cmdNode("c1", 1, 0, false, true), cmdNode("sub", 2, 0, false, true), cmdNode("w", 1, 2, false, true)}
+			c.Nodes[0].Fn = true
+			c.Nodes[1].Desc = T(descs[(variant+1)%3])
+			c.Nodes[2].Desc = T(descs[(variant+2)%3])
+			c.Nodes[3].Unset = true
+			if variant%2 == 1 {
+				c.Desc = T("the program")
+				c.Nodes[1].Args = Ts("<file>", "<dest>")
+				c.Nodes[1].ArgsD = Ts("input file", "")
+			}
+			for ki, kind := range AllKinds {
+				o := multi(kind, "o"+kind, 1+(ki+variant)%4, 1, 1+ki%3)
+				if (ki+variant)%3 != 0 {
+					o.Aliases = Ts(string(rune('a'+ki)), "alias"+kind)[:1+(ki+variant)%2]
+				}
+				o.Req = (ki+variant)%4 == 0
+				if o.Req && ki%2 == 0 {
+					o.HasMsg, o.ReqMsg = true, T("need it")
+				}
+				if (ki+variant)%5 < 2 {
+					o.Env = T(fmt.Sprintf("VERIF_ENV_H%d", ki))
+				}
+				o.Desc = T(descs[(ki+variant)%3])
+				if ki%4 == 1 {
+					o.ArgName = T("thing")
+				}
+				o.DefB = ki%2 == 0 && variant%2 == 0
+				c.Opts = append(c.Opts, o)
+			}
+			if variant >= 3 {
+				c.Opts = append(c.Opts, opt("bool", "é", 1), opt("string", "-", 2))
+			}
+			c = WithHelp(c, "help", "?")
+			f.Defs = append(f.Defs, Def{Cfg: c, Tokens: toks, L: lim(tier, 2, 3), Disp: true, HelpF: true})
 		}
 		fams = append(fams, f)
 	}
